@@ -199,3 +199,23 @@ package service
 //@   flag checks=-index,-assert
 //@   at sql_select.Ge lower-date-covers-window-start: isDateCol(arg0) ==> fmtDay <= fdiv((startMs / 1000) * 1000000000, 86400000000000)
 //@   at sql_select.Le upper-date-covers-window-end: isDateCol(arg0) ==> fmtDay >= fdiv((endMs / 1000) * 1000000000, 86400000000000)
+
+// Label names / label values: whatever happens while the rows are read - a row that
+// cannot be scanned, a value that cannot be encoded - the goroutine that streams the
+// body returns only after it has sent the closing "]}", so the body is one complete
+// JSON document with every row read so far.
+//@ ghost var sentLastStr string
+//@ func (*QueryLabelsService).GenericLabelReq$1 [C15]
+//@   flag checks=-index,-assert
+//@   check the-document-is-always-closed: sentLastStr == "]}"
+//@   loop 1:
+//@     modifies everything
+
+// Rows of a PromQL select are grouped into series on fingerprint change; the first row
+// opens the first series whatever its fingerprint is (0 is a fingerprint like any
+// other), so the sample append always has a series to append to.
+//@ func (*CLokiQuerier).Select [C12,C17]
+//@   flag checks=-assert,-slice,-make,-div
+//@   requires table-of-functions: has(supportedFunctions, "quantile_over_time") && !supportedFunctions["quantile_over_time"] && has(supportedFunctions, "stddev_over_time") && !supportedFunctions["stddev_over_time"] && has(supportedFunctions, "stdvar_over_time") && !supportedFunctions["stdvar_over_time"]
+//@   loop 1:
+//@     modifies everything
